@@ -7,7 +7,7 @@ SPEC = {
     "driver": "Driver/C23.lean",
     "needs_plz": False,
     "level": "proof",
-    "level_text": "somepath: full (sound and complete on every graph, memo included). deps/revdeps: soundness full "
+    "level_text": "somepath: full in both renderings (sound and complete on every graph, memo included; default mode: the printed rule list is the compacted image of a real chain and a chain of rules itself). revdeps default mode without a limit: every dependant crossing a rule boundary is reported (partial). deps/revdeps: soundness full "
                   "(everything reported is within the level limit, for every graph), completeness VIOLATED by the code: "
                   "three machine-checked witnesses + C23_deps_not_exact / C23_revdeps_not_complete (a fourth root cause, isSameTarget resolving the parent through the graph, was repaired with fix: commit 5bb75ab); "
                   "theorems are about the transcriptions in Model/Query.lean; ShouldInclude filters, subincludes, subrepos, "
@@ -15,7 +15,7 @@ SPEC = {
     "technique": "Lean 4 invariant proofs (weighted-path upper bounds for DFS levels / queue depths, DFS closure for somepath) "
                  "+ concrete witnesses + regenerated facts + differential correspondence with an independent 0-1 distance oracle",
     "trusted": [
-        "go/ast extractor harness/extract/c23 (level increments and print branch of deps, cut-off test, FIFO ends, depth/gate/report tests of findRevdeps, isSameTarget, guard chain and marking of somePath)",
+        "go/ast extractor harness/extract/c23 (level increments and print branch of deps, cut-off test, Deps entry, FIFO ends, depth/gate/report tests of findRevdeps, buildRevdeps, FindRevdeps seeding and child filter, the revdeps lookup, isSameTarget, guard chain and marking of somePath)",
         "correspondence harness/cmd/c23 vs Driver/C23.lean: exact printed lines / reported sets / paths on every DAG on <= 4 targets "
         "(thorough: 5) x roots x levels, random graphs with hidden sub-targets, orphan and oddly named targets, provide/require, planted delicate shapes",
         "modelled, not verified: Model/Query.lean transcribes deps, FindRevdeps/findRevdeps/isSameTarget, somePath/SomePath; Go maps as membership lists",
